@@ -18,13 +18,18 @@ C  rename_values  : TLC enumerates all small rename calls (NamesRenameMC, AllOrN
 from __future__ import annotations
 
 import json
+import multiprocessing as mp
 import os
 import random
 import re
+import threading
 import time
 
 from . import names_auth, names_fix, names_rename
 from .common import NCPU, SPECS, MachineryError
+from .report import Ctx
+
+POOL = None  # worker processes shared by the three parts (forked before any thread is started)
 
 DIR = os.path.join(SPECS, "names")
 NONE = "<none>"
@@ -44,6 +49,17 @@ def _cfg_variant(scratch: str, cfg: str, tag: str, **subst) -> str:
     with open(path, "w") as f:
         f.write(src)
     return path
+
+
+def _tlc(ctx, tla, cfg, **kw):
+    """ctx.tlc with a modest heap (the models are small; many JVMs may share the machine) and one retry
+    when the JVM was killed from outside (rc -9 without our timeout)."""
+    kw.setdefault("heap", "4g")
+    res = ctx.tlc(tla, cfg, **kw)
+    if res.returncode in (-9, 137) and not res.timed_out:
+        ctx.note(f"TLC run {kw.get('tag')} was killed from outside (rc={res.returncode}); repeated once")
+        res = ctx.tlc(tla, cfg, **kw)
+    return res
 
 
 def _need_ok(res, what: str) -> None:
@@ -68,7 +84,7 @@ def judge(ctx, structs: list, fix: list, ren: list, tag: str, chunk: int = 15000
         with open(path, "w") as f:
             json.dump({"structs": structs if kind == "fix" else [], "fix": part if kind == "fix" else [],
                        "ren": part if kind == "ren" else []}, f)
-        res = ctx.tlc(_p("NamesJudge.tla"), _p("NamesJudge.cfg"), tag=f"judge-{tag}-{k}", env={"JUDGE_FILE": path},
+        res = _tlc(ctx, _p("NamesJudge.tla"), _p("NamesJudge.cfg"), tag=f"judge-{tag}-{k}", env={"JUDGE_FILE": path},
                       deadlock=False, timeout=3000)
         _need_ok(res, f"judge {tag}/{k}")
         for r in res.records():
@@ -91,7 +107,7 @@ def judge(ctx, structs: list, fix: list, ren: list, tag: str, chunk: int = 15000
 def _auth_trace_validate(ctx, traces: list, ng: int, tag: str):
     tf = os.path.join(ctx.scratch, f"auth_traces_{tag}.json")
     names_auth.write_trace_file(tf, traces, ng)
-    res = ctx.tlc(_p("NamesAuthTrace.tla"), _p("NamesAuthTrace.cfg"), tag=f"auth-trace-{tag}", env={"TRACE_FILE": tf},
+    res = _tlc(ctx, _p("NamesAuthTrace.tla"), _p("NamesAuthTrace.cfg"), tag=f"auth-trace-{tag}", env={"TRACE_FILE": tf},
                   deadlock=False, timeout=3000)
     _need_ok(res, f"authority trace validation ({tag})")
     rep = names_auth.parse_reports(res)
@@ -140,13 +156,13 @@ def part_a(ctx, divs: dict, kinds_all: dict) -> None:
     mc = _p("NamesAuthMC.tla")
     foci = [("add", dict(MaxDepth=4)), ("multi", dict(MaxDepth=4 if thorough else 3))]
     if thorough:
-        foci[0] = ("add", dict(MaxDepth=4, Seeds="{1, 2, 3, 4}", OutSel="{2, 3, 4, 5}", SetV='{"<none>", "val_2"}'))
+        foci[0] = ("add", dict(MaxDepth=4, Seeds="{1, 2, 3, 4}", SetV='{"<none>", "val_2"}'))
     mismatch_traces = []
     for focus, subst in foci:
         cfg = _cfg_variant(ctx.scratch, f"NamesAuthMC_{focus}.cfg", ctx.tier, **subst)
-        res = ctx.tlc(mc, cfg, tag=f"auth-{focus}", timeout=3000)
+        res = _tlc(ctx, mc, cfg, tag=f"auth-{focus}", timeout=3000)
         _need_ok(res, f"authority design model ({focus})")
-        st = names_auth.replay_file(res.out_path, 2, NCPU)
+        st = names_auth.replay_file(res.out_path, 2, NCPU, POOL)
         os.unlink(res.out_path)
         if st["unparsed"]:
             raise MachineryError(f"auth-{focus}: {st['unparsed']} emitted records could not be parsed")
@@ -184,9 +200,8 @@ def part_a(ctx, divs: dict, kinds_all: dict) -> None:
     ctx.extra["auth_traces_divergent"] = len(rep["div"])
     ctx.extra["auth_trace_s"] = round(time.time() - t0, 1)
     _auth_report(ctx, rep, traces, "trace", divs, seeds)
-    if len(ctx.samples) < 2:
-        ctx.samples.append({"kind": "recorded execution of real ir.Graph/ir.Function objects, accepted by NamesAuthTrace",
-                            "events": [[e["c"], e["out"]] for e in traces[0][:8]]})
+    ctx.extra["auth_trace_sample"] = {"kind": "recorded execution of real ir.Graph/ir.Function objects, accepted by NamesAuthTrace",
+                                      "events": [[e["c"], e["out"]] for e in traces[0][:8]]}
 
 
 # ================================================================================================
@@ -259,18 +274,18 @@ def _describe(rec: dict) -> str:
 def part_b(ctx, divs: dict, kinds_all: dict) -> None:
     thorough = ctx.tier == "thorough"
     mc = _p("NamesFixMC.tla")
-    cfgs = ["v3t", "v4t", "n3t"] if thorough else ["v3", "v4", "n3"]
+    cfgs = ["v3t", "v3s", "v4t", "n3t"] if thorough else ["v3", "v4", "n3"]
     all_counts = {}
     ninst = 0
     # the transcription executed one visit per step on the smallest family: mechanism invariant at every
     # step, and small-step = big-step
-    res = ctx.tlc(mc, _p("NamesFixMC_step.cfg"), tag="fix-step", deadlock=False, timeout=3000)
+    res = _tlc(ctx, mc, _p("NamesFixMC_step.cfg"), tag="fix-step", deadlock=False, timeout=3000)
     _need_ok(res, "name-fix design model (step)")
     os.unlink(res.out_path)
     batches = []          # (source, recs)
     jstructs, jfix = [], []
     for c in cfgs:
-        res = ctx.tlc(mc, _p(f"NamesFixMC_{c}.cfg"), tag=f"fix-{c}", deadlock=False, timeout=6000)
+        res = _tlc(ctx, mc, _p(f"NamesFixMC_{c}.cfg"), tag=f"fix-{c}", deadlock=False, timeout=6000)
         _need_ok(res, f"name-fix design model ({c})")
         structs, runs = names_fix.load_tlc_output(res.out_path)
         os.unlink(res.out_path)
@@ -278,7 +293,7 @@ def part_b(ctx, divs: dict, kinds_all: dict) -> None:
             raise MachineryError(f"fix-{c}: emitted records could not be parsed")
         if not runs:
             raise MachineryError(f"fix-{c}: TLC emitted no instances")
-        out = names_fix.replay(structs, runs, NCPU)
+        out = names_fix.replay(structs, runs, NCPU, POOL)
         errs = [r for r in out if "error" in r]
         if errs:
             raise MachineryError(f"fix-{c}: {len(errs)} instances could not be built: {errs[0]['error']}")
@@ -330,7 +345,7 @@ def part_b(ctx, divs: dict, kinds_all: dict) -> None:
                 kk = (f"B|{c[0]}|{r['S']['top']}|g{len(r['S']['hold'])}|{r['post']['out']}|{'changed' if changed else 'same'}|"
                       + "+".join(broken))
                 kinds_all[kk] = kinds_all.get(kk, 0) + 1
-            if len(ctx.samples) < 3 and c.startswith("v3"):
+            if len(ctx.samples) < 1 and c.startswith("v3"):
                 r = next((x for x in out if x["pre"]["vname"] != x["post"]["vname"] and len(x["S"]["hold"]) > 1), out[0])
                 ctx.samples.append({"kind": "naming instance enumerated by TLC, real NameFixPass result judged by TLC",
                                     "structure": r["S"]["raw"], "before": [r["pre"]["vname"], r["pre"]["nname"]],
@@ -353,7 +368,7 @@ def part_c(ctx, divs: dict, kinds_all: dict) -> None:
     mc = _p("NamesRenameMC.tla")
     # the validation is necessary: without the "name held by an initializer outside the renamed set" check the
     # mechanism is not atomic -> TLC must find the violation at the design level
-    res = ctx.tlc(mc, _p("NamesRenameMC_weak.cfg"), tag="ren-weak", deadlock=False, timeout=600, count=False)
+    res = _tlc(ctx, mc, _p("NamesRenameMC_weak.cfg"), tag="ren-weak", deadlock=False, timeout=600, count=False)
     if "InvAllOrNothing" not in res.violated:
         raise MachineryError(f"weakened rename model does not violate AllOrNothing: {res.violated} {res.errors[:2]}")
     os.unlink(res.out_path)
@@ -361,9 +376,9 @@ def part_c(ctx, divs: dict, kinds_all: dict) -> None:
     if thorough:
         cfg = _cfg_variant(ctx.scratch, "NamesRenameMC.cfg", "t", LongDistinct="FALSE", Targets='{"a", "b", "c", "", "<none>"}',
                            TensorChoices="{FALSE, TRUE}")
-    res = ctx.tlc(mc, cfg, tag="ren", deadlock=False, timeout=6000)
+    res = _tlc(ctx, mc, cfg, tag="ren", deadlock=False, timeout=6000)
     _need_ok(res, "rename design model")
-    out = names_rename.replay_file(res.out_path, NCPU)
+    out = names_rename.replay_file(res.out_path, NCPU, POOL)
     os.unlink(res.out_path)
     if any("unparsed" in r for r in out) or not out:
         raise MachineryError("rename: emitted records could not be parsed")
@@ -396,25 +411,89 @@ def part_c(ctx, divs: dict, kinds_all: dict) -> None:
             ctx.case(kk, nontrivial=("|reject" in kk or "init0" not in kk), n=v)
     ctx.extra["rename_calls_replayed"] = len(out)
     ctx.extra["rename_nonconforming"] = sum(1 for r in out if not r["conf"])
-    if len(ctx.samples) < 4:
+    if len(ctx.samples) < 1:
         r = next((x for x in out if "cycle3" in names_rename.kind_of(x["pre"], x["pairs"]) and x["out"] == "ok"), out[0])
         ctx.samples.append({"kind": "rename_values call enumerated by TLC, replayed, AllOrNothing evaluated by TLC on the result",
                             "before": r["pre"], "pairs": r["pairs"], "after": r["post"], "outcome": r["out"]})
 
 
 # ================================================================================================
+def coverage_check(ctx) -> None:
+    """Anti-vacuity: with -coverage 1 no expression of the design models may have count 0."""
+    zero = {}
+    runs = [("NamesAuthMC.tla", _cfg_variant(ctx.scratch, "NamesAuthMC_add.cfg", "cov", MaxDepth=3, EmitOn="FALSE")),
+            ("NamesAuthMC.tla", _cfg_variant(ctx.scratch, "NamesAuthMC_multi.cfg", "cov", MaxDepth=3, EmitOn="FALSE")),
+            ("NamesFixMC.tla", _p("NamesFixMC_step.cfg")),
+            ("NamesRenameMC.tla", _cfg_variant(ctx.scratch, "NamesRenameMC.cfg", "cov", EmitOn="FALSE"))]
+    for i, (tla, cfg) in enumerate(runs):
+        res = _tlc(ctx, _p(tla), cfg, tag=f"cov-{i}", deadlock=False, timeout=3000, coverage=True, count=False)
+        _need_ok(res, f"coverage run {tla}")
+        n = 0
+        with open(res.out_path, errors="replace") as f:
+            for line in f:
+                if re.match(r"^\s*\|*line \d+, col \d+ to line \d+, col \d+ of module Names\w*: 0$", line.rstrip()):
+                    n += 1
+        zero[f"{tla}:{os.path.basename(cfg)}"] = n
+        os.unlink(res.out_path)
+    ctx.extra["coverage_zero_count_expressions"] = zero
+    if any(zero.values()):
+        raise MachineryError(f"design model has expressions that are never evaluated: {zero}")
+
+
 def run(ctx) -> None:
+    """The three parts are independent; they run concurrently, each on its own sub-context, and are merged."""
+    global POOL
     divs: dict = {}
     kinds: dict = {}
-    t = time.time()
-    part_a(ctx, divs, kinds)
-    ctx.extra["part_a_s"] = round(time.time() - t, 1)
-    t = time.time()
-    part_b(ctx, divs, kinds)
-    ctx.extra["part_b_s"] = round(time.time() - t, 1)
-    t = time.time()
-    part_c(ctx, divs, kinds)
-    ctx.extra["part_c_s"] = round(time.time() - t, 1)
+    if ctx.tier == "thorough":
+        coverage_check(ctx)
+    POOL = mp.get_context("fork").Pool(NCPU)
+    parts = {"a": part_a, "b": part_b, "c": part_c}
+    subs, errors, local = {}, {}, {}
+    for p in parts:
+        d = os.path.join(ctx.scratch, f"part_{p}")
+        os.makedirs(d, exist_ok=True)
+        subs[p] = Ctx(ctx.pid, ctx.tier, ctx.seed, d, level=ctx.level)
+        subs[p].known = []   # known findings are matched once, when merging
+        local[p] = ({}, {})
+
+    def work(p):
+        t = time.time()
+        try:
+            parts[p](subs[p], local[p][0], local[p][1])
+        except BaseException as e:  # noqa: BLE001 - re-raised in the main thread
+            errors[p] = e
+        subs[p].extra[f"part_{p}_s"] = round(time.time() - t, 1)
+
+    try:
+        threads = [threading.Thread(target=work, args=(p,), name=f"c15-{p}") for p in parts]
+        for t in threads:
+            t.start()
+        for t in threads:
+            t.join()
+    finally:
+        POOL.terminate()
+        POOL = None
+    for p in parts:
+        if p in errors:
+            raise errors[p]
+    for p in parts:
+        sub = subs[p]
+        ctx.states += sub.states
+        ctx.transitions += sub.transitions
+        ctx.tlc_runs += sub.tlc_runs
+        ctx.replayed += sub.replayed
+        ctx.validated += sub.validated
+        ctx.evaluations += sub.evaluations
+        ctx._distinct |= sub._distinct
+        ctx.samples += sub.samples
+        ctx.notes += sub.notes
+        ctx.extra.update(sub.extra)
+        for sig, detail in sorted(sub.violations.items()):
+            ctx.violation(sig, detail)
+        for k, v in local[p][0].items():
+            divs[k] = divs.get(k, 0) + v
+        kinds.update(local[p][1])
     ctx.extra["divergences"] = divs
     ctx.extra["case_kinds"] = len(kinds)
     if divs:
